@@ -56,6 +56,10 @@ CLAIMS = {
    text='Partial (table conformance only): every normative PDF / codebook / constant table that RFC 6716 prints (read from the xml2rfc source shipped in doc/, an oracle written independently of the C tables) equals the evaluated C initialiser after the per-entry transform (pdf->icdf, transposition, sub-table offsets, bit-field layout) - 163 translated tables; the ec_sel bit layout used to read the NLSF selection tables; the binding of each decoder function\'s iCDF call sites to those tables; the fs/frame-size selectors of silk_decoder_set_fs against the RFC rows; decoder reachability and coverage of the mapped tables. This is exactly the class "a changed table entry that keeps encoder and decoder mutually consistent". PCM within tolerance of the reference decoder, final range, filters, MDCT, resampler and transitions are NOT decided (numeric).',
    note=TRUST + 'doc/draft-ietf-codec-opus.xml as the oracle (its two known misprints - the 12-entry trim PDF and the row label "g" - are handled by reading the celt_symbols row and by positional rows). spec/c03_sites.json binds decoder functions to table sets.',
    technique='translation validation of constant tables against the RFC text + points-to resolution of table arguments + decision-table extraction (path feasibility under enumerated valuations)'),
+ 'C18': dict(category='other',
+   text='Partial: for ANY index values a bitstream can carry (interval abstract interpretation of the dequantisers, not sampled inputs) - NLSFs are stored inside [0,32767] and stabilised on every path; the stabiliser returns only with verified spacing or after its four-pass sort-and-clamp fallback (whose skip edge is proved infeasible); the gain index stays in [0,63] and the log-gain argument <= 3967 for any delta chain; pitch lags end in [2*Fs,18*Fs] for all six (Fs, sub-frame) cases; NLSF2A fits to 16 bit before the inverse-gain loop, leaves it only with non-zero gain or at the cap whose last chirp is exactly 0; LPC_fit saturates on its give-up path; the decoder prediction filters have no other writer; the interpolation factor is in [0,4]; plus the codebook data preconditions (shapes vs selecting iCDFs, deltaMin sums, non-zero weights, ec_sel ranges, reciprocal steps, cosine table, contour strides). Numeric stability of every LPC and encoder/decoder value equality are NOT decided.',
+   note=TRUST + 'Assumes no signed overflow inside the analysed expressions beyond what the type clipping models.',
+   technique='interval-set abstract interpretation with inlined callee summaries and expression facts (saturation idiom), partitioned per (Fs, sub-frame count); must-pass-through / dominance; table predicates; decision-table extraction'),
 }
 
 NA_REASON = {
